@@ -108,6 +108,7 @@ type Exec struct {
 	nextID    int
 	served    chan error
 	kept      []retained
+	keptMaps  [][2]wire.Parameters // parameter maps callbacks kept, each with a copy of what it held then
 	Sched     *Sched // set when goroutines are under schedule control (C16 / C15)
 	Global    wire.Parameters
 	TLS       *tls.Config // the configuration handed to the server (the user's object) ...
@@ -149,6 +150,7 @@ func NewExec(cfg M) (*Exec, error) {
 		// AuthenticationOk itself or returns an error
 		opts = append(opts, wire.SessionAuthStrategy(func(ctx context.Context, w *buffer.Writer, r *buffer.Reader) (context.Context, error) {
 			cp := wire.ClientParameters(ctx)
+			x.retainMap(cp)
 			x.cb(ctx, M{"name": "auth", "user": cp[wire.ParamUsername], "db": cp[wire.ParamDatabase]})
 			if a == "custom-fail" {
 				return ctx, errors.New("not on the list")
@@ -350,6 +352,20 @@ func (x *Exec) retainStr(s string) {
 	x.ctxMu.Unlock()
 }
 
+// retainMap: a callback keeps the parameter map it was given (not a copy of it)
+func (x *Exec) retainMap(m wire.Parameters) {
+	if m == nil {
+		return
+	}
+	snap := wire.Parameters{}
+	for k, v := range m {
+		snap[k] = v
+	}
+	x.ctxMu.Lock()
+	x.keptMaps = append(x.keptMaps, [2]wire.Parameters{m, snap})
+	x.ctxMu.Unlock()
+}
+
 func (x *Exec) retainBytes(b []byte) {
 	if b == nil {
 		return
@@ -363,6 +379,16 @@ func (x *Exec) retainBytes(b []byte) {
 func (x *Exec) Intact() bool {
 	x.ctxMu.Lock()
 	defer x.ctxMu.Unlock()
+	for _, pair := range x.keptMaps {
+		if len(pair[0]) != len(pair[1]) {
+			return false
+		}
+		for k, v := range pair[1] {
+			if got, ok := pair[0][k]; !ok || got != v {
+				return false
+			}
+		}
+	}
 	for _, r := range x.kept {
 		if r.param != nil {
 			v := r.param.Value()
@@ -428,6 +454,7 @@ type authKeyT struct{}
 var authKey = authKeyT{}
 
 func (x *Exec) validate(ctx context.Context, database, username, password string) (context.Context, bool, error) {
+	x.retainMap(wire.ClientParameters(ctx))
 	x.retainStr(database)
 	x.retainStr(username)
 	x.retainStr(password)
@@ -568,6 +595,8 @@ var SentinelTexts = []string{io.EOF.Error(), io.ErrUnexpectedEOF.Error(), net.Er
 
 func (x *Exec) parse(ctx context.Context, query string) (wire.PreparedStatements, error) {
 	x.retainStr(query)
+	x.retainMap(wire.ClientParameters(ctx))
+	x.retainMap(wire.ServerParameters(ctx))
 	for k, v := range wire.ClientParameters(ctx) {
 		x.retainStr(string(k))
 		x.retainStr(v)
